@@ -8,6 +8,7 @@ mod common;
 mod gen;
 mod nsscope;
 mod props;
+mod spell;
 mod xmlread;
 mod xmlwrite;
 
@@ -67,6 +68,8 @@ fn main() {
     }
     let code = dispatch!(
         "C01" => c01,
+        "C02" => c02,
+        "C03" => c03,
         "C04" => c04,
         "C05" => c05,
         "C06" => c06,
@@ -82,6 +85,7 @@ fn main() {
         "C16" => c16,
         "C19" => c19,
         "C20" => c20,
+        "C17" => c17,
         "C18" => c18,
     );
     std::process::exit(code);
